@@ -85,10 +85,19 @@ class Normaliser:
         if isinstance(e, ast.Compare) and len(e.ops) == 1 and type(e.ops[0]) in _OPS:
             rel = _OPS[type(e.ops[0])]
             l, r = e.left, e.comparators[0]
-            # comparison of two predicate masks: isfinite(a) != isfinite(b)
+            # comparison of two predicate masks: isfinite(a) != isfinite(b); a mask kept in a local is looked up
+            if rel in ("==", "!=") and all(isinstance(x, (ast.Call, ast.Name)) for x in (l, r)) and self._depth < 6:
+                rl = [(self.resolve(x) if isinstance(x, ast.Name) else x) for x in (l, r)]
+                if all(isinstance(x, ast.Call) and call_name(x) in ("np.isfinite", "np.isinf", "np.isnan") for x in rl):
+                    l, r = rl
             if rel in ("==", "!=") and all(isinstance(x, ast.Call) and call_name(x) in ("np.isfinite", "np.isinf", "np.isnan") for x in (l, r)):
                 a, b = self.elem(l, True), self.elem(r, True)
                 same = (rel == "==") == pos
+                # (not p) != (not q)  is  p != q ;  (not p) != q  is  p == q : predicates made positive
+                for _ in (0, 1):
+                    if a[0] == "pred" and a[3] is False:
+                        a, same = (a[0], a[1], a[2], True), not same
+                    a, b = b, a
                 return ("iff" if same else "xor", frozenset([a, b]))
             if not pos:
                 if self.nan_strict and rel in ("<", "<=", ">", ">="):
